@@ -567,4 +567,212 @@ func runC05(c *Ctx) {
 	})
 }
 
-func runC06Faults(c *Ctx) {}
+
+// ---- C06, storage faults: every file operation of the last call of every short
+// history fails once ----------------------------------------------------------------
+
+func faultAlphabet(cfg Cfg) []Op {
+	a := []Op{
+		{Op: "ins", V: 1, K: 0},
+		{Op: "ins", V: 2, K: 2},
+		{Op: "upd", Slot: 0, V: 2, K: 0},
+		{Op: "upd", Slot: 0, V: 3, K: 3},
+		{Op: "del", Slot: 0},
+		{Op: "delall"},
+		{Op: "many", Batch: []Mem{{Kind: "fresh", V: 2, K: 3}, {Kind: "slot", Slot: 0, V: 3, K: 4}}},
+		{Op: "bulk", CSize: 1, Batch: []Mem{{Kind: "fresh", V: 2, K: 3}, {Kind: "fresh", V: 3, K: 4}}},
+		{Op: "sdel", Field: "A", Cmp: ">=", Probe: 2},
+	}
+	if cfg.Async != 0 {
+		a = append(a, Op{Op: "flushallc"}, Op{Op: "reopen"})
+	}
+	return a
+}
+
+func runC06Faults(c *Ctx) {
+	depth := 2
+	cfgs := []Cfg{{}, {Cache: true, Compress: true}, {Async: 2}}
+	kinds := []string{"eio", "partial"}
+	if c.Tier == "thorough" {
+		depth = 3
+		cfgs = append(cfgs, Cfg{Index: 2, Ext: ".obj"}, Cfg{Async: 1, Cache: true})
+	}
+	item := 0
+	for _, cfg := range cfgs {
+		cfg := cfg
+		ord := func(p string) bool { return indexedUnder(cfg, p) }
+		for _, p := range enumPaths(faultAlphabet(cfg), depth) {
+			item++
+			if item%c.NShards != c.Shard {
+				continue
+			}
+			if c.Expired() {
+				c.Count("depth_incomplete", 1)
+				return
+			}
+			// the statement is about InsertOrUpdate and the batch calls: they are the faulted call
+			if lo := p[len(p)-1].Op; lo != "ins" && lo != "upd" && lo != "many" && lo != "bulk" {
+				continue
+			}
+			rec := Record(cfg, "C06", p)
+			if len(rec.Viol) > 0 || len(rec.Models) != len(p)+1 {
+				continue
+			}
+			first := rec.OpsAt[len(p)-1]
+			for k := first; k < rec.Ops; k++ {
+				for _, kind := range kinds {
+					k, kind := k, kind
+					var failed string
+					hit := false
+					partialOK := false
+					res := RunPath(cfg, "C06", p[:len(p)-1], func(w *World) {
+						w.Viol = nil
+						before := w.Observe(ObsOpt{Ordered: true}, ord)
+						w.FS.FailAt, w.FS.FailKind = w.FS.Ops+(k-first), kind
+						w.Tolerant = true
+						w.Apply(p[len(p)-1])
+						w.Tolerant = false
+						failed = w.FS.Failed
+						w.FS.FailAt = -1
+						if failed == "" {
+							return
+						}
+						hit = true
+						if len(w.Viol) > 0 {
+							return
+						}
+						opn := p[len(p)-1].Op
+						fk := strings.Fields(failed)[0] + ":" + fileClass(strings.Fields(failed)[1])
+						// phase of the failed call: which of its effects reached the files
+						objPersisted, schemaCommitted := "no", "no"
+						for _, m := range w.FS.Log {
+							if m.Call != len(w.Path) {
+								continue
+							}
+							target := m.Path
+							if m.Kind == vfs.MRename {
+								target = m.To
+							}
+							switch fileClass(target) {
+							case "object":
+								objPersisted = "yes"
+							case "schema":
+								schemaCommitted = "yes"
+							}
+						}
+						fail := func(sym, what string) {
+							w.fail(fmt.Sprintf("fault|%s|object-change-persisted=%s|schema-committed=%s", sym, objPersisted, schemaCommitted), what+"\n  injected: "+kind+" at file operation "+fmt.Sprint(k)+" ("+failed+", "+fk+") during "+jsonOf(p[len(p)-1]))
+						}
+						if w.LastErr == nil {
+							// acknowledged although a file operation failed: the reference post-state must hold,
+							// on the live handle and after reopen
+							w.SweepBasic()
+							w.SearchSweep(false)
+							if len(w.Viol) == 0 && cfg.Async == 0 {
+								w.open()
+								w.SweepBasic()
+							}
+							for i := range w.Viol {
+								w.Viol[i].Sig = fmt.Sprintf("C06|fault|acknowledged-but-lost|op=%s|failed=%s", opn, fk)
+								w.Viol[i].What = "the call returned nil although " + failed + " failed, and: " + w.Viol[i].What
+							}
+							return
+						}
+						after := w.Observe(ObsOpt{Ordered: true}, ord)
+						dir := w.collDir()
+						if after == before {
+							// no trace on the live handle; the directory must still load cleanly or be reported
+							if cfg.Async == 0 {
+								w.open()
+								if len(w.Viol) > 0 {
+									cls := classify(firstLoadErr(w))
+									if cls != eCorrupted {
+										w.Viol = nil
+										fail("unreadable-after-failed-call", "the failed call left no trace on the handle but the directory no longer loads")
+									} else {
+										w.Viol = nil
+									}
+								}
+							}
+							return
+						}
+						// a trace: it must be reported and repairable
+						cerr := w.DB.Control()
+						if cerr == nil && cfg.Async == 0 {
+							// abandon and reopen: the first load must report it
+							db2 := sod.Open(dbRoot)
+							_, lerr := db2.Schema(&Rec{})
+							if lerr == nil {
+								files, bad := decodeFiles(w.FS, dir, cfg)
+								pr := agree(db2, cfg, files)
+								if len(bad) > 0 || len(pr) > 0 {
+									fail("silent-divergence", "the call failed ("+w.LastErr.Error()+"), reads changed, Control and a fresh load report nothing, but index and files disagree: "+strings.Join(pr, "; "))
+								} else {
+									// the error was reported and what was stored before the failure is
+									// consistent (index and files agree, live and reloaded): no divergence
+									partialOK = true
+								}
+								return
+							}
+							if !sod.IsIndexCorrupted(lerr) {
+								fail("unreadable-after-failed-call", "after the failed call the directory no longer loads: "+lerr.Error())
+								return
+							}
+							if rerr := db2.Repair(&Rec{}); rerr != nil {
+								fail("repair-failed", "Repair failed after the reported corruption: "+rerr.Error())
+								return
+							}
+							files, _ := decodeFiles(w.FS, dir, cfg)
+							if pr := agree(db2, cfg, files); len(pr) > 0 || db2.Control() != nil {
+								fail("disagree-after-repair", "after the failed call and Repair index and files disagree: "+strings.Join(pr, "; "))
+							}
+							return
+						}
+						if cerr != nil && !sod.IsIndexCorrupted(cerr) {
+							fail("control-error-class", "Control fails with a non-corruption error after the failed call: "+cerr.Error())
+							return
+						}
+						if cerr != nil {
+							if rerr := w.DB.Repair(&Rec{}); rerr != nil {
+								fail("repair-failed", "Repair failed after the reported corruption: "+rerr.Error())
+								return
+							}
+							if c2 := w.DB.Control(); c2 != nil {
+								fail("control-after-repair", "Control still fails after Repair: "+c2.Error())
+							}
+						}
+					})
+					if !hit {
+						continue
+					}
+					if partialOK {
+						c.Count("faults_leaving_consistent_partial_effect", 1)
+					}
+					c.Count("evaluations", 1)
+					c.Count("fault_points", 1)
+					c.Count("paths_replayed", 1)
+					c.Count("transitions", 1)
+					key := fmt.Sprintf("fault|%s|%s|%d|%s", cfg, jsonOf(p), k, kind)
+					c.Distinct("states", key)
+					c.Distinct("distinct_nontrivial", key)
+					for _, v := range res.W.Viol {
+						if !strings.Contains(v.Sig, "|fault|") {
+							v.Sig = "C06|fault|" + strings.TrimPrefix(v.Sig, "C06|")
+						}
+						c.Violation(v)
+					}
+				}
+			}
+		}
+	}
+	c.Meta(map[string]interface{}{
+		"fault_rule": "storage faults: every history up to the fault depth over the fault alphabet is re-executed once per file-system operation (stat, open, read, write, mkdir, remove, rename, readdir) of its last call, with that operation failing (EIO without effect; for writes also a half-persisted write then ENOSPC). Oracle: nil return => reference post-state holds (also after reopen); error return => no trace, or Control / first load reports corruption and Repair restores agreement; anything else is a silent divergence.",
+		"fault_configs": cfgs, "fault_depth": depth,
+	})
+}
+
+func firstLoadErr(w *World) error {
+	db := sod.Open(dbRoot)
+	_, err := db.Schema(&Rec{})
+	return err
+}
